@@ -869,6 +869,17 @@ class Walker:
                 st.tri[tgt.id] = frozenset(['truthy'])
             elif tgt.id in self.assume_none and isinstance(node, (ast.Assign, ast.AnnAssign)) and isinstance(src, ast.Call):
                 st.tri[tgt.id] = frozenset(['none'])
+            elif isinstance(node, (ast.Assign, ast.AnnAssign)) and isinstance(src, ast.Compare) and len(src.ops) == 1 \
+                    and isinstance(src.left, ast.Name) and isinstance(src.comparators[0], ast.Constant) \
+                    and src.comparators[0].value is None and isinstance(src.ops[0], (ast.Is, ast.IsNot)):
+                # flag = X is None / X is not None: decided where X's none-ness is known on this path
+                xt = st.tri.get(src.left.id)
+                if xt is not None:
+                    isnone = xt == frozenset(['none'])
+                    notnone = 'none' not in xt
+                    if isnone or notnone:
+                        val_true = isnone if isinstance(src.ops[0], ast.Is) else notnone
+                        st.tri[tgt.id] = frozenset(['truthy']) if val_true else frozenset(['falsy'])
         elif isinstance(tgt, ast.Attribute):
             base = self.ev(st, tgt.value)
             if isinstance(base, (SStr, Lin, TupleVal)):
@@ -879,9 +890,14 @@ class Walker:
                 return
             self.set_field(st, o.id, tgt.attr, val)
         elif isinstance(tgt, (ast.Tuple, ast.List)):
+            srcv = getattr(node, 'value', None)
+            pairwise = isinstance(node, ast.Assign) and isinstance(srcv, (ast.Tuple, ast.List)) and len(srcv.elts) == len(tgt.elts) \
+                and not any(isinstance(x, ast.Starred) for x in list(srcv.elts) + list(tgt.elts))
             for i, el in enumerate(tgt.elts):
                 if isinstance(val, TupleVal) and i < len(val.items):
-                    self.assign(st, el, val.items[i], node)
+                    # `a, b = None, x`: each element is bound like a single assignment from its own source expression
+                    self.assign(st, el, val.items[i],
+                                ast.copy_location(ast.Assign(targets=[el], value=srcv.elts[i]), node) if pairwise else node)
                 else:
                     self.assign(st, el, Unk(fresh('unpack')), node)
         elif isinstance(tgt, ast.Subscript):
